@@ -141,6 +141,7 @@ def run(check, prog):
     cluster(check, prog)
     auto(check, prog)
     cscat_interpolation(check, prog)
+    co_indexed(check, prog)
 
 
 def cluster(check, prog):
@@ -322,3 +323,68 @@ def cscat_interpolation(check, prog):
     check.require(ok, 'Q4-polarisation-interpolation', '_calc_cscat gamma',
                   'gamma = arctan2(pol_y, pol_x) of the normalised polarisation', loc,
                   fail_detail='angle is %s' % show(a)[:160])
+
+
+def co_indexed(check, prog):
+    """Order independence needs the per-sphere arrays handed to the solver to be
+    co-indexed: positions, relative indices and size parameters all come from the
+    member list in one and the same order (any re-ordering applied to one must be
+    applied to all)."""
+    q = TH + 'multisphere.Multisphere._scsmfo_setup'
+    fd = prog.func(q)
+    loc = prog.loc(q, fd)
+    sc = sym(fd.args.args[1].arg)
+
+    def decide(t):
+        if t[0] == 'call' and t[1] == 'isinstance' and t[2][0] == sc:
+            return show(t[2][1]).endswith('Spheres')
+        return None
+    it = Interp(prog, max_depth=1, decide=decide)
+    it.analyze(q)
+    am = [c for c in it.calls if c['name'].endswith('amncalc')]
+    if len(am) != 1 or len(am[0]['args']) < 7:
+        check.bad('Q5-co-indexed-arrays', 'Multisphere._scsmfo_setup',
+                  'no single amncalc(inew, x, y, z, m_real, m_imag, sizes, ...) call', loc)
+        return
+    per_sphere = am[0]['args'][1:7]
+    names = ['x', 'y', 'z', 'Re m', 'Im m', 'size parameter']
+    want_src = ['center', 'center', 'center', 'n', 'n', 'r']
+
+    def reorderings(t):
+        out = set()
+        for x in subterms(t):
+            if x[0] == 'idx':
+                k = x[2]
+                plain = k[0] in ('num', 'slice', 'const') or (
+                    k[0] == 'tuple' and all(y[0] in ('num', 'slice') for y in k[1]))
+                if not plain:
+                    out.add(k)
+            if x[0] == 'call' and isinstance(x[1], str) and x[1].rpartition('.')[2] in (
+                    'sort', 'argsort', 'sorted', 'flip', 'roll', 'take', 'permutation',
+                    'shuffle', 'lexsort', 'unique'):
+                out.add(x)
+            if x[0] == 'call' and isinstance(x[1], tuple) and x[1][0] == 'attr' and \
+                    x[1][2] in ('sort', 'argsort', 'take'):
+                out.add(x)
+        return frozenset(out)
+    sigs = [reorderings(a) for a in per_sphere]
+    srcs = []
+    for a in per_sphere:
+        at = {x[2] for x in subterms(a) if x[0] == 'attr' and x[1][0] == 'elem'}
+        # the collection's own per-member properties: centers / n / r
+        at |= {{'centers': 'center'}.get(x[2], x[2]) for x in subterms(a)
+               if x[0] == 'attr' and x[1] == sc}
+        srcs.append(at)
+    ok_src = all(w in s_ for w, s_ in zip(want_src, srcs))
+    ok = len(set(sigs)) == 1 and ok_src
+    detail = ''
+    if not ok:
+        detail = '; '.join('%s: from %s, re-ordered by %s' % (
+            n, sorted(s_), [show(k)[:60] for k in sg] or 'nothing')
+            for n, s_, sg in zip(names, srcs, sigs))
+    check.require(ok, 'Q5-co-indexed-arrays', 'Multisphere._scsmfo_setup',
+                  'x, y, z, Re m, Im m and the size parameters are the members\' '
+                  'centres, indices and radii in one common order', loc,
+                  fail_detail=detail + ': the solver is handed spheres whose index '
+                  'belongs to another sphere, so the result depends on the listing '
+                  'order')
